@@ -19,7 +19,7 @@ META = dict(
         "qucumber/nn_states/neural_state.py: NeuralStateBase.sample, probability",
     ],
     bounds=dict(
-        quick="BinaryRBM (n,h) in {(1,1),(2,2),(2,3),(3,2),(3,3)}; PurificationRBM (n,h,a) in {(1,1,1),(2,1,2),(2,2,1),(2,2,2)}; all start states, all hidden/aux outcomes; k in 0..3; overwrite on/off; continued chains; three state types for sample()",
+        quick="BinaryRBM (n,h) in {(1,1),(2,2),(2,3),(3,2),(3,3)}; PurificationRBM (n,h,a) in {(1,1,1),(2,1,2),(2,2,1),(2,2,2)}; all start states, all hidden/aux outcomes; k in 0..3; overwrite on/off; continued chains and held results; 2^n + 2 chains with duplicates; start states of shape [replica, chain, site]; three state types for sample()",
         thorough="additionally BinaryRBM (4,2),(2,4),(4,4),(3,4),(5,2),(4,5),(1,4); PurificationRBM (3,2,1),(2,3,2),(3,1,2),(3,2,2),(4,2,1),(3,3,3),(4,4,3),(4,3,3),(3,4,3),(1,4,3)",
     ),
     outside=["the empirical law of the real torch.bernoulli generator (statistical; not solver-decidable)", "n > 4", "device / dtype corner cases of overwrite", "floating point saturation of sigmoid"],
